@@ -658,6 +658,9 @@ func oracle(_ any, f []string, out string) (string, string) {
 	if out == "PANIC" || out == "TIMEOUT" {
 		return "crash-" + slug(cmd), out
 	}
+	if strings.HasPrefix(out, "EXC ARG-MUTATED") {
+		return "argument-mutated-" + slug(cmd), "the command changed one of its (immutable) number arguments in place: " + out
+	}
 	allExact := step == nil || isExactV(step)
 	for _, a := range args {
 		allExact = allExact && isExactV(a)
